@@ -21,13 +21,13 @@ func init() {
 }
 
 type c20Scen struct {
-	Pushes  int  // producer: push; waitUntilSizeIsBelow(1) after each
-	Pulls   int  // consumer pulls
-	Cancel  bool // a canceller thread cancels the context at any point
-	Bound   int  // deviation bound (-1 unbounded)
-	WaitN   int  // n of waitUntilSizeIsBelow
-	Shard   int
-	Shards  int
+	Pushes int  // producer: push; waitUntilSizeIsBelow(1) after each
+	Pulls  int  // consumer pulls
+	Cancel bool // a canceller thread cancels the context at any point
+	Bound  int  // deviation bound (-1 unbounded)
+	WaitN  int  // n of waitUntilSizeIsBelow
+	Shard  int
+	Shards int
 }
 
 func (s c20Scen) name() string {
